@@ -30,7 +30,7 @@ R20.6 exit status: ErrNoNewVersion maps to the distinct non-zero code, any other
 	c.Rule("R20.2", 1, "")
 	c.Rule("R20.3", 6, "")
 	c.Rule("R20.4", 4, "")
-	c.Rule("R20.5", 2, "")
+	c.Rule("R20.5", 3, "")
 	c.Rule("R20.6", 2, "")
 	r := loadRepo(c, packages.LoadSyntax, "tools", "./cmd")
 	var p *packages.Package
@@ -286,10 +286,7 @@ R20.6 exit status: ErrNoNewVersion maps to the distinct non-zero code, any other
 				return true
 			})
 			for _, q := range d.paths {
-				short, hasShort := atomVal(q, "builtin.len(strings.Split(")
-				if hasShort && short && q.Exit == "return" && q.Ret[0] == "nil" {
-					okShort = true
-				}
+				_ = okShort
 				updated := false
 				if maxObj != nil {
 					if v, ok := q.env[maxObj]; ok && strings.Contains(v, "NewVersion(") && !strings.Contains(v, `"v0.0.0"`) {
@@ -317,17 +314,89 @@ R20.6 exit status: ErrNoNewVersion maps to the distinct non-zero code, any other
 					}
 				}
 			}
+			// names with fewer than three dot-separated parts are skipped, all others are parsed:
+			// evaluate the length tests for 1..5 parts
+			okShort = true
+			for n := 1; n <= 5; n++ {
+				parsed, skippedAll, any := false, true, false
+				for _, q := range d.paths {
+					consistent := true
+					for _, a := range q.Atoms {
+						if i := strings.Index(a.Expr, "builtin.len(strings.Split("); i == 0 {
+							j := strings.Index(a.Expr, `, "."))`)
+							if j < 0 {
+								continue
+							}
+							if v, ok := lenAtom(a.Expr, a.Expr[:j+len(`, "."))`)], n); ok && v != a.Val {
+								consistent = false
+							}
+						}
+					}
+					if !consistent {
+						continue
+					}
+					any = true
+					callsParse := len(q.CallsTo("semver/v3.NewVersion")) > 0
+					if callsParse {
+						parsed = true
+						skippedAll = false
+					} else if !(q.Exit == "return" && len(q.Ret) == 1) {
+						skippedAll = false
+					}
+				}
+				if !any || n < 3 && !skippedAll || n >= 3 && !parsed {
+					okShort = false
+				}
+			}
 			c.Check(okUpd && nUpd > 0, "R20.4", "largestTagSemver|update-condition", r.Pos(fl.Pos()), "maximum updated only for greater versions of the same major", "the running maximum is updated on a path that has not established version.GreaterThan(max) && version.Major() == major")
-			c.Check(okShort, "R20.4", "largestTagSemver|non-full-versions", r.Pos(fl.Pos()), "names with fewer than three parts are skipped", "tag names that are not full versions (fewer than three dot-separated parts) are not skipped")
+			c.Check(okShort, "R20.4", "largestTagSemver|non-full-versions", r.Pos(fl.Pos()), "names with fewer than three parts are skipped, all others are parsed", "tag names are not 'skipped iff fewer than three dot-separated parts': short names must be ignored, and names with three or more parts (a dotted pre-release or build suffix adds parts) must be parsed and compared, otherwise an existing release is overlooked and tagged again")
 			c.Check(okLight, "R20.4", "largestTagSemver|lightweight-tags", r.Pos(fl.Pos()), "lightweight tags are compared by their reference name", "lightweight tags (no tag object) are not taken into account by their reference name: a hand-made lightweight release tag would be ignored when computing the largest version")
 			c.Check(okAnn, "R20.4", "largestTagSemver|annotated-tags", r.Pos(fl.Pos()), "annotated tags are compared by the tag object's name", "annotated tags are not taken into account by their tag name")
 		}
 	}
 	// ---- R20.5
 	if ct != nil {
-		s := nodeString(ct.Body)
-		okNames := strings.Contains(s, `strings.Split(version, ".")`) && rangeOverLit(ct, []string{"version", "majorVersion"})
-		okHash := strings.Contains(s, "repo.Head()") && strings.Contains(s, "hash.Hash()")
+		// the tags created: the version string and the text before its first dot, both at repo.Head()'s hash
+		fct := newFuncCanon(info, ct)
+		okNames, okHash := false, false
+		ast.Inspect(ct.Body, func(n ast.Node) bool {
+			rs, isR := n.(*ast.RangeStmt)
+			if !isR {
+				return true
+			}
+			cl, isL := ast.Unparen(rs.X).(*ast.CompositeLit)
+			if !isL || len(cl.Elts) != 2 {
+				return true
+			}
+			a, b := fct.E(cl.Elts[0]), fct.E(cl.Elts[1])
+			if a == "ARG1" && b == `strings.Split(ARG1, ".")[0]` || b == "ARG1" && a == `strings.Split(ARG1, ".")[0]` {
+				// each element is what CreateTag is called with
+				ast.Inspect(rs.Body, func(m ast.Node) bool {
+					if call, ok := m.(*ast.CallExpr); ok && strings.HasSuffix(calleeName(info, call), "go-git/v5.Repository).CreateTag") && len(call.Args) == 3 {
+						okNames = isObj(info, call.Args[0], info.Defs[rs.Value.(*ast.Ident)])
+						okHash = fct.E(call.Args[1]) == "ARG0.Head<(github.com/go-git/go-git/v5.Repository).Head>()#0.Hash<(github.com/go-git/go-git/v5/plumbing.Reference).Hash>()"
+					}
+					return true
+				})
+			}
+			return true
+		})
+		// and the version string handed to createTag is the canonical "v" + semver of the requested version
+		if tg := FuncDecl(p, "Tagger.Tag"); tg != nil {
+			ftg := newFuncCanon(info, tg)
+			okArg := false
+			got := ""
+			ast.Inspect(tg.Body, func(n ast.Node) bool {
+				if call, ok := n.(*ast.CallExpr); ok && len(call.Args) == 2 {
+					if fn := calleeFunc(info, call); fn != nil && fn.Name() == "createTag" {
+						got = ftg.E(call.Args[1])
+						okArg = got == `fmt.Sprintf("v%s", github.com/Masterminds/semver/v3.NewVersion(RECV.Version)#0.String<(github.com/Masterminds/semver/v3.Version).String>())`
+					}
+				}
+				return true
+			})
+			c.Check(okArg, "R20.5", "Tag|canonical-tag-name", r.Pos(tg.Pos()), "createTag(\"v\" + canonical form of the requested version)", "Tag hands createTag "+got+" instead of \"v\" followed by the canonical form of the parsed requested version: a VERSION written without the v prefix or without a patch number creates tags the version comparison never sees, so the same version is tagged again on the next run")
+		}
 		c.Check(okNames, "R20.5", "createTag|tag-names", r.Pos(ct.Pos()), "tags: the version and its major prefix", "createTag does not tag exactly the version and the text before its first dot")
 		c.Check(okHash, "R20.5", "createTag|tag-target", r.Pos(ct.Pos()), "both tags at HEAD", "the tags are not created at repo.Head()'s hash")
 	}
